@@ -22,6 +22,8 @@ def gen_ops(rng, spec, nops, save_modes, p_save=0.12, structures=("package",)):
     """ops over a *copy* of spec that tracks what exists, so most ops are meaningful"""
     sh = copy.deepcopy(spec)
     ops = []
+    last_img = dict(spec["images"])
+    last_dat = dict(spec["data"])
 
     def layers():
         return [l["name"] for l in sh["layers"]]
@@ -39,9 +41,13 @@ def gen_ops(rng, spec, nops, save_modes, p_save=0.12, structures=("package",)):
         if r < p_save:
             mode = rng.choice(save_modes)
             ops.append(["save", mode, rng.choice(structures)])
-        elif r < 0.20:
+        elif r < 0.17:
             gn = rng.choice(fg.GLYPH_NAMES)
             ops.append(["gget", ln, gn])
+        elif r < 0.20:
+            # a pure read of the outline (the second stage of lazy loading), typically after an edit
+            gn = rng.choice(present) if present else rng.choice(fg.GLYPH_NAMES)
+            ops.append(["gread", ln, gn])
         elif r < 0.27:
             gn = rng.choice(fg.GLYPH_NAMES)
             ops.append(["gnew", ln, gn])
@@ -76,7 +82,7 @@ def gen_ops(rng, spec, nops, save_modes, p_save=0.12, structures=("package",)):
                 elif k < 0.8:
                     ops.append(["gfield", ln, gn, "note", rng.choice([None, "x", "changed"])])
                 elif k < 0.9:
-                    ops.append(["gfield", ln, gn, "libkey", ["com.a.k1", rng.choice([None, 1, "v", [1, 2]])]])
+                    ops.append(["gfield", ln, gn, "libkey", ["com.a.k1", rng.choice([None, 7, "v", [1, 2]])]])
                 else:
                     ops.append(["gfield", ln, gn, "move", [rng.randint(-5, 5), rng.randint(-5, 5)]])
         elif r < 0.68:
@@ -110,7 +116,7 @@ def gen_ops(rng, spec, nops, save_modes, p_save=0.12, structures=("package",)):
         elif r < 0.82:
             ops.append(["lcolor", ln, rng.choice([None] + fg.COLORS)])
         elif r < 0.84:
-            ops.append(["llib", ln, rng.choice(["com.a.k1", "org.b.flag"]), rng.choice([None, 3, "w"])])
+            ops.append(["llib", ln, rng.choice(["com.a.k1", "org.b.flag"]), rng.choice([None, 8, "w"])])
         elif r < 0.87:
             a = rng.choice(sorted(fg.INFO_ATTRS))
             # list-valued attributes default to []: assigning None to them is not a re-assignment of the held value
@@ -125,34 +131,50 @@ def gen_ops(rng, spec, nops, save_modes, p_save=0.12, structures=("package",)):
         elif r < 0.925:
             ops.append(["feat", rng.choice(["# g\n", "# f\n", "feature kern {\n    pos A B -3;\n} kern;\n"])])
         elif r < 0.94:
-            ops.append(["lib", rng.choice(["com.a.k1", "com.a.k2", "org.new"]), rng.choice([None, 1, "s", {"a": [1]}])])
+            ops.append(["lib", rng.choice(["com.a.k1", "com.a.k2", "org.new"]), rng.choice([None, 9, "s", {"a": [1]}])])
         elif r < 0.95:
             ops.append(["touch", rng.choice(PARTS)])
         elif r < 0.965:
             n = rng.choice(fg.IMAGE_NAMES)
             k = rng.random()
             if k < 0.5:
-                ops.append(["img", n, rng.randint(1, 6)])
-                sh["images"][n] = 1
+                # half of the time the bytes the file had before (an undone delete / a no-op assignment)
+                sd = last_img.get(n) if (n in last_img and rng.random() < 0.5) else rng.randint(1, 6)
+                ops.append(["img", n, sd])
+                sh["images"][n] = sd
+                last_img[n] = sd
             elif k < 0.8:
                 ops.append(["img", n, None])
                 sh["images"].pop(n, None)
             else:
                 ops.append(["imgget", n])
-        elif r < 0.99:
+        elif r < 0.985:
             n = rng.choice(fg.DATA_NAMES)
             k = rng.random()
             if k < 0.5:
-                ops.append(["dat", n, rng.randint(1, 6)])
-                sh["data"][n] = 1
+                sd = last_dat.get(n) if (n in last_dat and rng.random() < 0.4) else rng.randint(0, 6)
+                ops.append(["dat", n, sd])
+                sh["data"][n] = sd
+                last_dat[n] = sd
+                if rng.random() < 0.4:
+                    ops.append(["datget", n])       # read back what was just assigned
             elif k < 0.8:
                 ops.append(["dat", n, None])
                 sh["data"].pop(n, None)
             else:
                 ops.append(["datget", n])
+        elif sh.get("guidelines") and rng.random() < 0.6:
+            # change one attribute of an existing font guideline
+            i = rng.randrange(len(sh["guidelines"]))
+            if rng.random() < 0.5:
+                ops.append(["fguideattr", i, "y", rng.randint(0, 700)])
+            else:
+                ops.append(["fguideattr", i, "name", rng.choice(["gA", "gB"])])
         else:
-            ops.append(["fguide", [[None, rng.randint(0, 500), None, rng.choice([None, "b"]), None, rng.choice([None, "fg%d" % j])]
-                                   for j in range(rng.randint(0, 2))]])
+            gl = [[None, rng.randint(0, 500), None, rng.choice([None, "b"]), None, rng.choice([None, "fg%d" % j])]
+                  for j in range(rng.randint(0, 2))]
+            ops.append(["fguide", gl])
+            sh["guidelines"] = gl
     return ops
 
 
@@ -178,12 +200,12 @@ class Shadow(object):
         """returns True if the op must succeed, False if it must be rejected (KeyError etc.)"""
         s = self.s
         k = op[0]
-        if k in ("gget", "gnew", "ginsert", "gdel", "grename", "gset", "gfield"):
+        if k in ("gget", "gread", "gnew", "ginsert", "gdel", "grename", "gset", "gfield"):
             L = self.layer(op[1])
             if L is None:
                 return False
             g = L["glyphs"]
-            if k == "gget":
+            if k in ("gget", "gread"):
                 return op[2] in g
             if k == "gnew":
                 g[op[2]] = copy.deepcopy(EMPTY_GLYPH)
@@ -302,6 +324,10 @@ class Shadow(object):
             return op[1] in s["data"]
         elif k == "fguide":
             s["guidelines"] = copy.deepcopy(op[1])
+        elif k == "fguideattr":
+            if op[1] >= len(s["guidelines"]):
+                return False
+            s["guidelines"][op[1]][1 if op[2] == "y" else 3] = op[3]
         return True
 
 
@@ -424,10 +450,17 @@ class Impl(object):
         font = self.font
         k = op[0]
         try:
-            if k in ("gget", "gnew", "ginsert", "gdel", "grename", "gset", "gfield"):
+            if k in ("gget", "gread", "gnew", "ginsert", "gdel", "grename", "gset", "gfield"):
                 layer = font.layers[op[1]]
                 if k == "gget":
                     self.keep.append(layer[op[2]])
+                elif k == "gread":
+                    g = layer[op[2]]
+                    self.keep.append(g)
+                    len(g)
+                    for c in g:
+                        len(c)
+                    g.bounds
                 elif k == "gnew":
                     self.keep.append(layer.newGlyph(op[2]))
                 elif k == "ginsert":
@@ -531,6 +564,11 @@ class Impl(object):
                 font.data[op[1]]
             elif k == "fguide":
                 font.guidelines = [fg._guideline_dict(g) for g in op[1]]
+            elif k == "fguideattr":
+                gls = font.guidelines
+                if op[1] >= len(gls):
+                    raise KeyError(op[1])
+                setattr(gls[op[1]], op[2], op[3])
             elif k == "save":
                 return self.save(op[1], op[2])
             else:
@@ -738,7 +776,7 @@ def run_case(case, prop):
         viol = carry + viol
         stats["saves"] = nsaves
         stats["len"] = len(case["ops"])
-        nontrivial = nsaves > 0 and any(o[0] not in ("save", "gget", "touch", "imgget", "datget") for o in case["ops"])
+        nontrivial = nsaves > 0 and any(o[0] not in ("save", "gget", "gread", "touch", "imgget", "datget") for o in case["ops"])
         try:
             impl.font.close()
         except Exception:
@@ -748,12 +786,69 @@ def run_case(case, prop):
         shutil.rmtree(tmpd, ignore_errors=True)
 
 
+def scenario(rng, spec):
+    """short scripted patterns that random op soup rarely produces: undo of a delete, edit then pure read,
+    delete then re-create under the old name, rename away and back, layer rename then default change"""
+    ln = rng.choice([l["name"] for l in spec["layers"]])
+    L = [l for l in spec["layers"] if l["name"] == ln][0]
+    gl = sorted(L["glyphs"])
+    k = rng.randrange(9)
+    if k == 0 and spec["images"]:
+        n = rng.choice(sorted(spec["images"]))
+        return [["imgget", n]] * rng.randint(0, 1) + [["img", n, None], ["img", n, spec["images"][n]]]
+    if k == 1 and spec["data"]:
+        n = rng.choice(sorted(spec["data"]))
+        return [["dat", n, None], ["dat", n, spec["data"][n]]]
+    if k == 2:
+        n = rng.choice(fg.DATA_NAMES)
+        return [["dat", n, rng.choice([0, 3])], ["datget", n]]
+    if k == 3 and gl:
+        g = rng.choice(gl)
+        if rng.random() < 0.5:
+            return [["gfield", ln, g, "width", rng.choice([777, 123])], ["gread", ln, g]]
+        return [["gfield", ln, g, "note", rng.choice(["x", "changed"])], ["gread", ln, g]]
+    if k == 4 and gl:
+        g = rng.choice(gl)
+        return [["gdel", ln, g], ["gnew", ln, g]]
+    if k == 5 and gl:
+        g = rng.choice(gl)
+        pool = fg.BASES if g in fg.BASES else fg.COMPOSITES
+        free = [n for n in pool if n not in L["glyphs"]]
+        if free:
+            t = rng.choice(free)
+            return [["grename", ln, g, t], ["grename", ln, t, g]]
+    if k == 6 and len(gl) >= 2:
+        a, b = rng.sample(gl, 2)
+        if (a in fg.BASES) == (b in fg.BASES):
+            return [["gdel", ln, b], ["grename", ln, a, b]]
+    if k == 7:
+        free = [n for n in fg.LAYER_NAMES if n not in [l["name"] for l in spec["layers"]]]
+        others = [l["name"] for l in spec["layers"] if l["name"] != spec["default"]]
+        if free and others:
+            o = rng.choice(others)
+            return [["lrename", o, free[0]], ["ldefault", free[0]]]
+    if k == 8 and spec.get("guidelines"):
+        return [["fguideattr", 0, "y", 333]]
+    return []
+
+
 def gen_case(rng, tier, save_modes, structures=("package", "zip"), maxops=None, p_save=0.12):
     spec = fg.gen_font(rng)
     structure = rng.choice(structures)
     origin = "memory" if rng.random() < 0.2 else "disk"
     nops = rng.randint(4, maxops or (16 if tier == "quick" else 40))
-    ops = gen_ops(rng, spec, nops, save_modes, p_save=p_save, structures=structures)
+    pre = []
+    start = spec
+    if rng.random() < 0.5:
+        # a scripted pattern right at the start (while the spec still describes the font), usually followed by a save
+        sc = scenario(rng, spec)
+        if sc:
+            pre = sc + ([["save", rng.choice(save_modes), structure]] if rng.random() < 0.7 else [])
+            sh0 = Shadow(spec)
+            for o in sc:
+                sh0.do(o)
+            start = sh0.s
+    ops = pre + gen_ops(rng, start, nops, save_modes, p_save=p_save, structures=structures)
     if not any(o[0] == "save" for o in ops):
         ops.append(["save", rng.choice(save_modes), structure])
     if origin == "memory" :
@@ -801,7 +896,7 @@ def part_value(spec, part):
     return spec[part]
 
 
-PART_OF_OP = {"info": "info", "fguide": "info", "kern": "kerning", "group": "groups", "feat": "features", "lib": "lib"}
+PART_OF_OP = {"info": "info", "fguide": "info", "fguideattr": "info", "kern": "kerning", "group": "groups", "feat": "features", "lib": "lib"}
 
 
 def model_lines(case):
@@ -843,7 +938,7 @@ def model_lines(case):
         ok = sh.do(op) if k != "save" else True
         if k in PART_OF_OP:
             part = PART_OF_OP[k]
-            ln = [Atom("pset"), Atom(part), blobs.of(part_value(sh.s, part))] if ok else [Atom("ptouch"), Atom(part)]
+            ln = [Atom("pquiet" if k == "fguideattr" else "pset"), Atom(part), blobs.of(part_value(sh.s, part))] if ok else [Atom("ptouch"), Atom(part)]
             lines.append(q(ln) if part == "lib" else ln)
         elif k == "touch":
             lines.append(q([Atom("ptouch"), Atom(op[1])]) if op[1] == "lib" else [Atom("ptouch"), Atom(op[1])])
